@@ -74,6 +74,10 @@ func validateBlock(evidencePool EvidencePool, store Store, state LatestBlockStat
 
 	// Validate block LastCommit
 	if block.Height() == state.InitialHeight {
+		// the first block carries the empty commit (height 0, round 0, no block id), never none
+		if lc := block.LastCommit(); lc == nil || lc.Height != 0 || lc.Round != 0 || !lc.BlockID.IsZero() {
+			return ErrLastCommitSig
+		}
 		if len(block.LastCommit().Signatures) != 0 {
 			return ErrLastCommitSig
 		}
